@@ -105,15 +105,15 @@ def parseAttr (d : Bytes) : Py (Option Attr) :=
                      ln := (a11 * 256 + a12) * 256 + a13 })
   | _ => .error .struct
 
-/-- the `for i in range(1, last, nbr)` loop -/
-def blockLoop3 (t : Tag) (last nbr : Nat) : Nat → Nat → Bytes → S3 → Py (Option Bytes) × S3
+/-- the `for i in range(1, last, nbr)` loop; `acc` = the answers so far, newest first (`data += ...`) -/
+def blockLoop3 (t : Tag) (last nbr : Nat) : Nat → Nat → List Bytes → S3 → Py (Option Bytes) × S3
   | 0, _, _, s => (.error .outOfFuel, s)
   | f+1, i, acc, s =>
-    if i ≥ last then (.ok (some acc), s)
+    if i ≥ last then (.ok (some acc.reverse.flatten), s)
     else
       match read3 t (List.range' i (min (i + nbr) last - i)) s with
       | (.error e, s') => if isTagCmd e then (.ok none, s') else (.error e, s')
-      | (.ok d, s') => blockLoop3 t last nbr f (i + nbr) (acc ++ d) s'
+      | (.ok d, s') => blockLoop3 t last nbr f (i + nbr) (d :: acc) s'
 
 /-- `Type3Tag.NDEF._read_ndef_data()` (repaired) -/
 def readNdef3 (t : Tag) (s : S3) : Py (Option Ndef) × S3 :=
@@ -221,7 +221,7 @@ def parseCC (v1 : Bool) (caps : Bytes) : Py (Option Info) :=
         let rf := if tag = 4 then v4 else v6
         let wf := if tag = 4 then v5 else v7
         .ok (some { maxLe := min (e1 * 256 + e0) 256, maxLc := min (c1 * 256 + c0) 255,
-                    capacity := (mfs : Int) - tag + 2,
+                    capacity := ((min mfs 0x10000 : Nat) : Int) - tag + 2,   -- 16 bit file offsets (fixes/C01_t34)
                     readable := decide (rf = 0), writeable := decide (wf = 0),
                     nlenSize := tag - 2, fid := [v0, v1'], v1 := v1 })
     | _ => .error .struct
